@@ -151,13 +151,20 @@ def source_scan():
     return hits
 
 
+# theorems about the correspondence glue itself (value syntax of the line protocol), audited by every check
+GLUE_MODULES = ["GraafVerif.Thm.Glue"]
+GLUE_THEOREMS = ["GraafVerif.Glue." + t for t in ("line_roundtrip", "value_roundtrip_in_context", "unbalanced_rejected",
+                                                  "numeral_read_back", "accessors_invert_encoders", "arcs_roundtrip")]
+
+
 def check_proofs(pid, props, thorough):
     """Returns (theorem records, failures:list[str])."""
     failures = []
     module = props.get("thm_module", f"GraafVerif.Thm.{pid}")
     modules = module if isinstance(module, list) else [module]
+    modules = list(modules) + [m_ for m_ in GLUE_MODULES if m_ not in modules]
     module = " ".join(modules)
-    theorems = props.get("theorems", [])
+    theorems = list(props.get("theorems", [])) + GLUE_THEOREMS
     rc, out, err = sh(["lake", "build"] + modules, cwd=LEAN, timeout=3000)
     if rc != 0:
         failures.append(f"lake build {module} failed: " + (out + err)[-1500:])
@@ -738,7 +745,7 @@ def write_evidence(pid, tier, seed, props, thm_recs, recs, t0, violations, notes
     cov = {
         "obligations": len(thm_recs),
         "discharged": ok_thms,
-        "checker_cmd": f"cd {LEAN} && lake build {' '.join(props['thm_module']) if isinstance(props.get('thm_module'), list) else props.get('thm_module', 'GraafVerif.Thm.' + pid)} && lake env lean .lake/audit_{pid}.lean  (#print axioms of every property theorem; thorough: + lake env leanchecker)",
+        "checker_cmd": f"cd {LEAN} && lake build {' '.join(props['thm_module']) if isinstance(props.get('thm_module'), list) else props.get('thm_module', 'GraafVerif.Thm.' + pid)} {' '.join(GLUE_MODULES)} && lake env lean .lake/audit_{pid}.lean  (#print axioms of every property theorem; thorough: + lake env leanchecker)",
         "trusted_base": props.get("trusted_base", []) + [
             "Lean 4.33.0 kernel; axioms allowed: propext, Classical.choice, Quot.sound (audited per theorem on every run)",
             "hand-written Lean model tied to /repo by the correspondence run reported below (gharness = real code, gdriver = compiled model)",
